@@ -81,6 +81,13 @@ pub fn apply_tamper(root: &std::path::Path, path: &str, kind: &TamperKind, at: u
             data.truncate(pos);
         }
         TamperKind::Remove => {}
+        TamperKind::CrlfFirst => match data.iter().position(|b| *b == b'\n') {
+            Some(i) if i > 0 && data[i - 1] == b'\r' => {
+                data.remove(i - 1);
+            }
+            Some(i) => data.insert(i, b'\r'),
+            None => return false,
+        },
     }
     // keep the inode (in-place rewrite) so that only content changes
     std::fs::write(&p, data).is_ok()
@@ -163,6 +170,9 @@ pub fn exec(case: &Case, ctx: &mut Ctx, rec: &mut Case) -> Hist {
                 tree::plant_entry(&env.root, entry);
             }
             Op::Sentinel => tree::set_sentinel(&env.root),
+            Op::Touch { path, days } => {
+                tree::set_mtime(&env.root.join(crate::tree::osp(path)), tree::SENTINEL_SECS + days * 86400);
+            }
             Op::Checkpoint => checkpoint = Some(tree::snapshot(&env.root)),
             Op::Rollback => {
                 if let Some(s) = &checkpoint {
@@ -324,6 +334,18 @@ fn edit_source(rng: &mut Rng, p: &Project, a: &Analysis) -> Option<Op> {
     let s = &a.sources[rng.below(a.n())];
     let data = p.file(&s.path)?.lossy();
     let eol = crate::spec::line_ending(&data);
+    if rng.chance(1, 6) && data.contains('\n') {
+        // the first line gets the other line ending: every line ending of the output changes
+        let t = match data.find('\n') {
+            Some(i) if i > 0 && data.as_bytes()[i - 1] == b'\r' => format!("{}{}", &data[..i - 1], &data[i..]),
+            Some(i) => format!("{}\r{}", &data[..i], &data[i..]),
+            None => data.clone(),
+        };
+        return Some(Op::Write {
+            path: s.path.clone(),
+            data: B(t.into_bytes()),
+        });
+    }
     let mut lines: Vec<String> = crate::spec::split_lines(&data).iter().map(|x| x.to_string()).collect();
     let newline = format!("edited line {}", rng.below(100000));
     let temp_body: Vec<usize> = lines
@@ -388,6 +410,7 @@ fn tamper_op(rng: &mut Rng, path: &str) -> Op {
         TamperKind::Truncate,
         TamperKind::Remove,
         TamperKind::LossyTwin,
+        TamperKind::CrlfFirst,
     ];
     let at = *rng.pick(&[0u32, 0, 500, 1000, 1000, 137, 873]);
     Op::Tamper {
@@ -501,8 +524,47 @@ pub fn gen(prop: &str, seed: u64, index: u64, _tier: Tier) -> Case {
                 params.insert("error".into(), k);
             }
             let a = analyze(&p);
+            if prng.chance(1, 5) && a.n() >= 2 {
+                // two sources name the same temp target with the same content: both clean passes
+                // go for the same file
+                let i = prng.below(a.n());
+                let mut j = prng.below(a.n());
+                if j == i {
+                    j = (i + 1) % a.n();
+                }
+                for k in [i, j] {
+                    let sp = a.sources[k].path.clone();
+                    if let Some(d) = p.file(&sp).cloned() {
+                        let t = d.lossy();
+                        let eol = crate::spec::line_ending(&t);
+                        let mut t2 = t.clone();
+                        if !t2.is_empty() && !t2.ends_with('\n') {
+                            t2.push_str(eol);
+                        }
+                        let target = gen::rel_path(&a.sources[k].dir, "shared_target.tmp");
+                        t2.push_str(&format!("~{eol}-TXTPP#temp {target}{eol}-shared body{eol}after shared{eol}"));
+                        p.set_file(&sp, B(t2.into_bytes()));
+                    }
+                }
+                params.insert("shared_temp".into(), "true".into());
+            }
+            let a = analyze(&p);
             // overlapping inputs as well (the same file named twice, a file and its directory)
-            let (inputs, recursive) = gen::gen_inputs(&mut prng, &a, true);
+            let (mut inputs, mut recursive) = gen::gen_inputs(&mut prng, &a, true);
+            // the base directory is a sub-directory now and then: temp targets of the sources in
+            // it may lie outside the base directory
+            let mut base7 = String::new();
+            if prng.chance(1, 6) {
+                let with_src: Vec<&str> = ["sub", "lib", "sub/deep", "sub/other"]
+                    .into_iter()
+                    .filter(|d| a.sources.iter().any(|s| s.dir == *d || s.dir.starts_with(&format!("{d}/"))))
+                    .collect();
+                if !with_src.is_empty() {
+                    base7 = (*prng.pick(&with_src)).to_string();
+                    inputs = vec![".".into()];
+                    recursive = !prng.chance(1, 4);
+                }
+            }
             match shape {
                 0..=4 | 7 | 8 => {
                     ops.push(run_op(&mut rng, ModeS::Build, &inputs, recursive, true, "build"));
@@ -525,6 +587,13 @@ pub fn gen(prop: &str, seed: u64, index: u64, _tier: Tier) -> Case {
             ops.push(Op::Sentinel);
             ops.push(run_op(&mut rng, ModeS::Clean, &inputs, recursive, true, "clean"));
             ops.push(run_op(&mut rng, ModeS::Clean, &inputs, recursive, true, "clean-again"));
+            if !base7.is_empty() {
+                for op in ops.iter_mut() {
+                    if let Op::Run { cfg, .. } = op {
+                        cfg.base = base7.clone();
+                    }
+                }
+            }
             project = p;
         }
         "C08" => {
@@ -692,7 +761,21 @@ pub fn gen(prop: &str, seed: u64, index: u64, _tier: Tier) -> Case {
             let twin_seed = rng.next();
             let twin_policy = gen::pick_policy(&mut rng);
             let twin_k = *rng.pick(&gen::KS);
+            // sources saved again without a change (newer than their outputs), outputs older or
+            // newer than everything else: time stamps must not decide anything
+            let mut touches: Vec<Op> = vec![];
+            if rng.chance(1, 3) {
+                for s in &a.sources {
+                    if rng.chance(1, 2) {
+                        touches.push(Op::Touch {
+                            path: s.path.clone(),
+                            days: *rng.pick(&[1i64, 365, -1, 4000]),
+                        });
+                    }
+                }
+            }
             for (m, l) in [(ModeS::Build, "twin-build"), (ModeS::Needed, "twin-needed")] {
+                ops.extend(touches.iter().cloned());
                 let mut cfg = RunCfg::simple(m, "", inputs.clone(), twin_k);
                 cfg.recursive = recursive;
                 cfg.trailing_newline = tn;
@@ -1021,6 +1104,7 @@ pub fn run(case: &Case, ctx: &mut Ctx) -> CaseOutcome {
                 Op::Tamper{path, kind, at} => format!("tamper {path} {kind:?}@{at}"),
                 Op::Plant{entry} => format!("plant {entry:?}"),
                 Op::Sentinel => "sentinel".into(),
+                Op::Touch{path, days} => format!("touch {path} {days:+}d"),
                 Op::Checkpoint => "checkpoint".into(),
                 Op::Rollback => "rollback".into(),
                 Op::CrashImage{step, writing, ..} => format!("crash-image at {} {step}", if *writing { "writing action" } else { "step" }),
